@@ -4,7 +4,6 @@
 -/
 import Bebop.Proofs.Canon.Parse
 import Bebop.Proofs.Canon.LangWF
-import Bebop.Proofs.Flags
 
 namespace Bebop.Text
 namespace Canon
@@ -354,10 +353,7 @@ theorem fieldsLoop_ok (fuel : Nat) (ind : List Byte) : ∀ (fs : List CField) (f
     obtain ⟨f, rfl⟩ : ∃ k, f = k + g.doc.length := ⟨f - g.doc.length, by simp only [fieldsLen, fieldLen] at hf; omega⟩
     obtain ⟨t0, hsrc0, hcur0, he0⟩ := struct_doc_iter fuel ind g.doc f acc {} _ t hg.1 h hcur
     rw [he0]
-    have hst0 : ({ ({} : BodySt) with comments := ({} : BodySt).comments ++ g.doc,
-        tags := ({} : BodySt).tags ++ tagsOf g.doc } : BodySt) = { comments := g.doc, tags := tagsOf g.doc } := by
-      simp
-    rw [hst0]
+    simp only [List.nil_append]
     cases hd : g.dep with
     | none =>
       rw [hd] at hsrc0
@@ -410,15 +406,16 @@ theorem fieldsLoop_ok (fuel : Nat) (ind : List Byte) : ∀ (fs : List CField) (f
 
 /-! ### message bodies -/
 
-/-- one message field line (after its attribute line, if any): two iterations of the body loop -/
+/-- one message field line (after its doc and attribute lines, if any) -/
 theorem msg_field_iter (fuel f : Nat) (acc : List (Nat × Field)) (st : BodySt) (ind : List Byte) (idx : Str) (n : Nat)
     (hidx : parseUint idx false 8 = some n) (hn0 : n ≠ 0) (hfresh : acc.any (·.1 == n) = false)
-    (ty : CType) (hty : CTypeOk ty) (name : Str) (hfu : tyFuel ty ≤ fuel) (hfu1 : 1 ≤ fuel) (r : List Lexeme) (t : TR)
+    (ty : CType) (hty : CTypeOk ty) (name : Str) (trail : Option Str) (hfu : tyFuel ty ≤ fuel) (hfu1 : 1 ≤ fuel)
+    (r : List Lexeme) (t : TR)
     (h : Src (toks (⟨ind, tNum idx⟩ :: ⟨[32], tArrow⟩ ::
-      typeLex ty [32] (⟨[32], tId name⟩ :: ⟨[], tSemi⟩ :: ⟨[], tNl⟩ :: r))) t)
+      typeLex ty [32] (⟨[32], tId name⟩ :: ⟨[], tSemi⟩ :: trailLex trail r))) t)
     (hcur : (t.nextTok.kind == TK.closeCurly) = false) :
-    ∃ t', Lex (toks r) t' ∧ t'.nextTok.kind = .newline ∧
-      readMessage.loop fuel (f + 2) acc st t =
+    ∃ t', Lex (toks r) t' ∧ (t'.nextTok.kind == TK.closeCurly) = false ∧
+      readMessage.loop fuel (f + trailIter trail) acc st t =
         readMessage.loop fuel f (acc ++ [(n, { ft := ftOf ty, name := name, comment := joinLines st.comments,
                                                tags := st.tags, depMsg := st.depMsg, deprecated := st.isDep })]) {} t' := by
   obtain ⟨t1, h1, hl1, htok1⟩ := expectAnyOf_ok
@@ -427,25 +424,37 @@ theorem msg_field_iter (fuel f : Nat) (acc : List (Nat × Field)) (st : BodySt) 
   obtain ⟨fu, rfl⟩ : ∃ g, fuel = g + 1 := ⟨fuel - 1, by omega⟩
   obtain ⟨t3, h3, hsrc3⟩ := rft_ok ty hty (fu + 1) [32] ⟨[32], tId name⟩ _ _ hfu (by intro h; cases h) hsrc2
   obtain ⟨t4, h4, hsrc4⟩ := expectSeq_ok [tId name, tSemi] _ t3 hsrc3
-  obtain ⟨t5, h5, hsrc5, htok5⟩ := skipEol_ok fu (tok := tNl) rfl hsrc4
-  obtain ⟨t6, h6, hl6, htok6⟩ := expectAnyOf_ok
-    (ks := [.newline, .intLit, .openSquare, .blockComment, .lineComment, .closeCurly]) (tok := tNl) (by decide) hsrc5
-  have hk5 : t5.nextTok.kind = .newline := by rw [htok5]
-  have hk6 : t6.nextTok.kind = .newline := by rw [htok6]
-  refine ⟨t6, hl6, hk6, ?_⟩
-  have hne : (TK.newline == TK.closeCurly) = false := by decide
-  have hk1 : t1.nextTok.kind = .intLit := by rw [htok1]
   have hn0' : (n == 0) = false := by simpa using hn0
   simp only [List.map_cons, List.map_nil] at h2 h4
-  rw [show f + 2 = (f + 1) + 1 from rfl, readMessage.loop]
-  simp only [bind_pTok, hcur, hne, Bool.false_eq_true, if_false]
-  rw [bind_ok h1, bind_pTok]
-  simp only [htok1, hidx, hn0', hfresh, Bool.false_eq_true, if_false]
-  rw [bind_ok h2, bind_ok h3, bind_ok h4, bind_ok h5, readMessage.loop]
-  simp only [bind_pTok, hk5, hne, Bool.false_eq_true, if_false]
-  rw [bind_ok h6, bind_pTok]
-  simp only [hk6]
-  rfl
+  cases trail with
+  | none =>
+    simp only [trailLex] at hsrc4
+    obtain ⟨t5, h5, hsrc5, htok5⟩ := skipEol_ok fu (tok := tNl) rfl hsrc4
+    obtain ⟨t6, h6, hl6, htok6⟩ := expectAnyOf_ok
+      (ks := [.newline, .intLit, .openSquare, .blockComment, .lineComment, .closeCurly]) (tok := tNl) (by decide) hsrc5
+    have hk5 : (t5.nextTok.kind == TK.closeCurly) = false := by rw [htok5]; rfl
+    have hk6 : t6.nextTok.kind = .newline := by rw [htok6]
+    refine ⟨t6, hl6, not_close_of_nl hk6, ?_⟩
+    rw [show f + trailIter none = (f + 1) + 1 from rfl, readMessage.loop]
+    simp only [bind_pTok, hcur, Bool.false_eq_true, if_false]
+    rw [bind_ok h1, bind_pTok]
+    simp only [htok1, hidx, hn0', hfresh, Bool.false_eq_true, if_false]
+    rw [bind_ok h2, bind_ok h3, bind_ok h4, bind_ok h5, readMessage.loop]
+    simp only [bind_pTok, hk5, Bool.false_eq_true, if_false]
+    rw [bind_ok h6, bind_pTok]
+    simp only [hk6]
+    rfl
+  | some c =>
+    simp only [trailLex] at hsrc4
+    obtain ⟨t5, h5, hl5, htok5⟩ := skipEol_cmt fu c hsrc4
+    have hk5 : (t5.nextTok.kind == TK.closeCurly) = false := by rw [htok5]; rfl
+    refine ⟨t5, hl5, hk5, ?_⟩
+    rw [show f + trailIter (some c) = f + 1 from rfl, readMessage.loop]
+    simp only [bind_pTok, hcur, Bool.false_eq_true, if_false]
+    rw [bind_ok h1, bind_pTok]
+    simp only [htok1, hidx, hn0', hfresh, Bool.false_eq_true, if_false]
+    rw [bind_ok h2, bind_ok h3, bind_ok h4, bind_ok h5]
+    rfl
 
 theorem msgFieldLen_mem : ∀ {gs : List CMsgField} {g : CMsgField}, g ∈ gs → msgFieldLen g ≤ msgFieldsLen gs
   | x :: gs, g, h => by
@@ -498,7 +507,8 @@ theorem msgLoop_ok (fuel : Nat) (ind : List Byte) : ∀ (gs : List CMsgField) (f
     rfl
   | g :: gs, f, acc, r, t, hok, hfresh, hnd, hf, hfu, h, hcur => by
     have hg := hok g (List.mem_cons_self)
-    obtain ⟨n, hn, hn0⟩ := hg.2.2.2.1
+    obtain ⟨n, hn, hn0⟩ := hg.2.2.2.2.1
+    have hti : trailIter g.trail ≤ 2 := by cases g.trail <;> simp [trailIter]
     have hidx : idxVal g.idx = n := by simp [idxVal, hn]
     have hty : tyFuel g.ty ≤ fuel := by
       have := tyFuel_le g.ty
@@ -526,23 +536,21 @@ theorem msgLoop_ok (fuel : Nat) (ind : List Byte) : ∀ (gs : List CMsgField) (f
     -- the doc lines
     obtain ⟨f, rfl⟩ : ∃ k, f = k + g.doc.length :=
       ⟨f - g.doc.length, by simp only [msgFieldsLen, msgFieldLen] at hf; omega⟩
-    obtain ⟨t0, hsrc0, hcur0, he0⟩ := msg_doc_iter fuel ind g.doc f acc {} _ t hg.1 h hcur
+    obtain ⟨t0, hsrc0, hcur0, he0⟩ := msg_doc_iter fuel ind g.doc f acc {} _ t hg.2.1 h hcur
     rw [he0]
-    have hst0 : ({ ({} : BodySt) with comments := ({} : BodySt).comments ++ g.doc,
-        tags := ({} : BodySt).tags ++ tagsOf g.doc } : BodySt) = { comments := g.doc, tags := tagsOf g.doc } := by
-      simp
-    rw [hst0]
+    simp only [List.nil_append]
     cases hd : g.dep with
     | none =>
       rw [hd] at hsrc0
       simp only [depLex] at hsrc0
-      obtain ⟨f, rfl⟩ : ∃ k, f = k + 2 := ⟨f - 2, by simp only [msgFieldsLen, msgFieldLen] at hf; omega⟩
+      obtain ⟨f, rfl⟩ : ∃ k, f = k + trailIter g.trail :=
+        ⟨f - trailIter g.trail, by simp only [msgFieldsLen, msgFieldLen] at hf; omega⟩
       obtain ⟨t1, hl1, hk1, he1⟩ := msg_field_iter fuel f acc { comments := g.doc, tags := tagsOf g.doc } ind g.idx n hn hn0 hany g.ty
-        hg.2.2.2.2.1 g.name hty h1fu _ t0 hsrc0 hcur0
+        hg.2.2.2.2.2.1 g.name g.trail hty h1fu _ t0 hsrc0 hcur0
       obtain ⟨t', h2, hl2⟩ := msgLoop_ok fuel ind gs f (acc ++ [msgFieldOf g]) r t1
         (fun x hx => hok x (List.mem_cons_of_mem _ hx)) hfresh' hnd.2
         (by simp only [msgFieldsLen, msgFieldLen] at hf; omega) (by simp only [msgFieldsLen] at hfu; omega) hl1.src
-        (not_close_of_nl hk1)
+        hk1
       refine ⟨t', ?_, hl2⟩
       rw [he1]
       simp only [List.map_cons, List.append_assoc, List.singleton_append] at h2 ⊢
@@ -554,20 +562,21 @@ theorem msgLoop_ok (fuel : Nat) (ind : List Byte) : ∀ (gs : List CMsgField) (f
     | some m =>
       rw [hd] at hsrc0
       simp only [depLex] at hsrc0
-      obtain ⟨f, rfl⟩ : ∃ k, f = k + 3 := ⟨f - 3, by simp only [msgFieldsLen, msgFieldLen, hd, depLen] at hf; omega⟩
+      obtain ⟨f, rfl⟩ : ∃ k, f = k + trailIter g.trail + 1 :=
+        ⟨f - trailIter g.trail - 1, by simp only [msgFieldsLen, msgFieldLen, hd, depLen] at hf; omega⟩
       obtain ⟨ta, h0, hl0, htok0⟩ := expectAnyOf_ok
         (ks := [.newline, .intLit, .openSquare, .blockComment, .lineComment, .closeCurly]) (tok := tLB) (by decide) hsrc0
-      obtain ⟨t1, hd1, hl1, htok1⟩ := readDeprecated_ok (hg.2.1 m hd) hl0.src
+      obtain ⟨t1, hd1, hl1, htok1⟩ := readDeprecated_ok (hg.2.2.1 m hd) hl0.src
       have hcur1 : (t1.nextTok.kind == TK.closeCurly) = false := by rw [htok1]; rfl
       obtain ⟨t2, hl2, hk2, he2⟩ := msg_field_iter fuel f acc { comments := g.doc, tags := tagsOf g.doc, isDep := true, depMsg := m } ind g.idx n
-        hn hn0 hany g.ty hg.2.2.2.2.1 g.name hty h1fu _ t1 hl1.src hcur1
+        hn hn0 hany g.ty hg.2.2.2.2.2.1 g.name g.trail hty h1fu _ t1 hl1.src hcur1
       obtain ⟨t', h3, hl3⟩ := msgLoop_ok fuel ind gs f (acc ++ [msgFieldOf g]) r t2
         (fun x hx => hok x (List.mem_cons_of_mem _ hx)) hfresh' hnd.2
         (by simp only [msgFieldsLen, msgFieldLen] at hf; omega) (by simp only [msgFieldsLen] at hfu; omega) hl2.src
-        (not_close_of_nl hk2)
+        hk2
       refine ⟨t', ?_, hl3⟩
       have hk0 : ta.nextTok.kind = .openSquare := by rw [htok0]
-      rw [show f + 3 = (f + 2) + 1 from rfl, readMessage.loop]
+      rw [readMessage.loop]
       simp only [bind_pTok, hcur0, Bool.false_eq_true, if_false]
       rw [bind_ok h0, bind_pTok]
       simp only [hk0]
@@ -763,132 +772,136 @@ theorem top_message (fuel f : Nat) (F : File) (cs : List Str) (code : Nat) (name
 
 theorem strOf_uint32 : strOf "uint32" = kwUint32 := by decide
 
-theorem parseUint_lt {s : Str} {b : Bool} {bits n : Nat} (h : parseUint s b bits = some n) : n < 2 ^ bits := by
-  unfold parseUint at h
-  split at h
-  · cases h
-  · cases h
-  · split at h
-    · split at h
-      · simp only [Option.some.injEq] at h; subst h; assumption
-      · cases h
-    · cases h
+/-- readUntil(semicolon) over tokens that are not semicolons -/
+theorem readUntilSemi_ok : ∀ (ts : List Token), (∀ tk ∈ ts, (tk.kind == TK.semicolon) = false) →
+    ∀ (acc : List Token) (f : Nat) (l : List Token) (t : TR), ts.length < f → Src (ts ++ tSemi :: l) t →
+    ∃ t', readUntilSemi f acc t = .ok (acc.reverse ++ ts) t' ∧ Lex l t' ∧ t'.nextTok = tSemi
+  | [], _, acc, f, l, t, hf, h => by
+    obtain ⟨f, rfl⟩ : ∃ g, f = g + 1 := ⟨f - 1, by simp at hf; omega⟩
+    obtain ⟨t1, hn, htok, hl⟩ := Src.step (tok := tSemi) h
+    refine ⟨t1, ?_, hl, htok⟩
+    have hk : (t1.nextTok.kind == TK.semicolon) = true := by rw [htok]; rfl
+    rw [readUntilSemi, bind_pNext _ hn]
+    simp only [Bool.not_true, Bool.false_eq_true, if_false, bind_pTok, hk, if_true, List.append_nil]
+    rfl
+  | tk :: ts, hts, acc, f, l, t, hf, h => by
+    obtain ⟨f, rfl⟩ : ∃ g, f = g + 1 := ⟨f - 1, by simp at hf; omega⟩
+    obtain ⟨t1, hn, htok, hl⟩ := Src.step (tok := tk) (l := ts ++ tSemi :: l) h
+    obtain ⟨t', h2, hl2, htok2⟩ := readUntilSemi_ok ts (fun x hx => hts x (List.mem_cons_of_mem _ hx)) (tk :: acc) f l t1
+      (by simp at hf; omega) hl.src
+    refine ⟨t', ?_, hl2, htok2⟩
+    have hk : (tk.kind == TK.semicolon) = false := hts tk (List.mem_cons_self)
+    rw [readUntilSemi, bind_pNext _ hn]
+    simp only [Bool.not_true, Bool.false_eq_true, if_false, bind_pTok, htok, hk]
+    rw [h2]
+    simp
 
-theorem parseInt_range {s : Str} {b : Bool} {bits : Nat} {v : Int} (h : parseInt s b bits = some v) :
-    inRange bits false v = true := by
-  rw [inRange_signed]
-  unfold parseInt at h
-  split at h
-  rename_i neg body heq
-  split at h
-  · rename_i n hn
-    split at h
-    · split at h
-      · simp only [Option.some.injEq] at h; subst h
-        have := Nat.two_pow_pos (bits - 1)
-        constructor <;> omega
-      · cases h
-    · split at h
-      · simp only [Option.some.injEq] at h; subst h
-        have := Nat.two_pow_pos (bits - 1)
-        constructor <;> omega
-      · cases h
-  · cases h
+theorem etok_not_semi (e : ETok) : (e.tok.kind == TK.semicolon) = false := by cases e <;> rfl
 
-/-- the value of an enum member: a plain literal, in a `[flags]` enum (`fl = true`) or in an ordinary one -/
-theorem enum_value (fuel bits : Nat) (uns fl : Bool) (hbits : 0 < bits) (hfuel : 2 ≤ fuel) (acc : List EnumOption)
-    (o : CEnumOpt) (ho : CEnumOptOk bits uns o) {l : List Token} {t1 : TR}
-    (h : Src (tEq :: tNum o.lit :: tSemi :: l) t1) :
-    ∃ t3, readEnumOptionValue fuel acc fl uns bits t1 =
-        .ok (if uns then 0 else (parseInt o.lit true bits).getD 0,
-             if uns then (parseUint o.lit true bits).getD 0 else 0) t3 ∧ Lex l t3 ∧ t3.nextTok = tSemi := by
+/-- the value of an enum member, as `readEnumOptionValue` computes it -/
+theorem enum_value (fuel bits : Nat) (uns fl : Bool) (prev : List EnumOption) (val : List ETok) (sv : Int) (uv : Nat)
+    (hv : enumVal fl bits uns prev (val.map ETok.tok) = some (sv, uv)) (hfuel : val.length < fuel)
+    {l : List Token} {t1 : TR} (h : Src (tEq :: (val.map ETok.tok ++ tSemi :: l)) t1) :
+    ∃ t3, readEnumOptionValue fuel prev fl uns bits t1 = .ok (sv, uv) t3 ∧ Lex l t3 ∧ t3.nextTok = tSemi := by
   obtain ⟨t2, h2, hsrc2⟩ := expectSeq_ok [tEq] _ t1 h
   simp only [List.map_cons, List.map_nil] at h2
   cases fl with
   | false =>
-    obtain ⟨t3, h3, hl3, htok3⟩ := expectSeq_last [tNum o.lit] tSemi _ t2 hsrc2
-    simp only [List.map_cons, List.map_nil, List.cons_append, List.nil_append] at h3
-    refine ⟨t3, ?_, hl3, htok3⟩
-    simp only [readEnumOptionValue]
-    rw [bind_ok h2]
-    simp only [Bool.not_false, if_true]
-    rw [bind_ok h3]
-    cases uns with
-    | true =>
-      have := ho.2.2.2.2
-      simp only [if_true] at this
-      obtain ⟨n, hn⟩ := Option.isSome_iff_exists.1 this
-      simp [hn, pure_apply]
-    | false =>
-      have := ho.2.2.2.2
-      simp only [Bool.false_eq_true, if_false] at this
-      obtain ⟨n, hn⟩ := Option.isSome_iff_exists.1 this
-      simp [hn, pure_apply]
+    -- an ordinary enum: exactly one literal
+    simp only [enumVal, Bool.false_eq_true, if_false] at hv
+    match val, hv, hsrc2 with
+    | [e], hv, hsrc2 =>
+      simp only [List.map_cons, List.map_nil] at hv hsrc2
+      by_cases hk : (e.tok.kind == TK.intLit) = true
+      · obtain ⟨t3, h3, hl3, htok3⟩ := expectSeq_last [e.tok] tSemi _ t2 hsrc2
+        simp only [List.map_cons, List.map_nil, List.cons_append, List.nil_append] at h3
+        have hk' : e.tok.kind = .intLit := by simpa using hk
+        rw [hk'] at h3
+        refine ⟨t3, ?_, hl3, htok3⟩
+        simp only [readEnumOptionValue]
+        rw [bind_ok h2]
+        simp only [Bool.not_false, if_true]
+        rw [bind_ok h3]
+        simp only [hk, if_true] at hv
+        cases uns with
+        | true =>
+          simp only [if_true, Option.map_eq_some_iff] at hv
+          obtain ⟨n, hn, heq⟩ := hv
+          simp only [Prod.mk.injEq] at heq
+          obtain ⟨rfl, rfl⟩ := heq
+          simp [hn, pure_apply]
+        | false =>
+          simp only [Bool.false_eq_true, if_false, Option.map_eq_some_iff] at hv
+          obtain ⟨n, hn, heq⟩ := hv
+          simp only [Prod.mk.injEq] at heq
+          obtain ⟨rfl, rfl⟩ := heq
+          simp [hn, pure_apply]
+      · simp [hk] at hv
   | true =>
-    obtain ⟨g, rfl⟩ : ∃ g, fuel = g + 2 := ⟨fuel - 2, by omega⟩
-    obtain ⟨ta, hna, htoka, hla⟩ := Src.step (tok := tNum o.lit) hsrc2
-    obtain ⟨t3, hn3, htok3, hl3⟩ := Src.step (tok := tSemi) hla.src
+    simp only [enumVal, if_true, List.length_map] at hv
+    obtain ⟨t3, h3, hl3, htok3⟩ := readUntilSemi_ok (val.map ETok.tok)
+      (by intro tk htk; obtain ⟨e, _, rfl⟩ := List.mem_map.1 htk; exact etok_not_semi e) [] fuel l t2
+      (by simpa using hfuel) hsrc2
     refine ⟨t3, ?_, hl3, htok3⟩
-    have hka : (ta.nextTok.kind == TK.semicolon) = false := by rw [htoka]; rfl
-    have hk3 : (t3.nextTok.kind == TK.semicolon) = true := by rw [htok3]; rfl
-    have huntil : readUntilSemi (g + 2) [] t2 = .ok [tNum o.lit] t3 := by
-      rw [show g + 2 = (g + 1) + 1 from rfl, readUntilSemi, bind_pNext _ hna]
-      simp only [Bool.not_true, Bool.false_eq_true, if_false, bind_pTok, hka]
-      rw [readUntilSemi, bind_pNext _ hn3]
-      simp only [Bool.not_true, Bool.false_eq_true, if_false, bind_pTok, hk3, if_true, htoka]
-      rfl
-    have hparse : parseExpr ([tNum o.lit].length + 1) [tNum o.lit] = some (.num o.lit) := by
-      simp [parseExpr]
+    simp only [List.reverse_nil, List.nil_append] at h3
     simp only [readEnumOptionValue]
     rw [bind_ok h2]
     simp only [Bool.not_true, Bool.false_eq_true, if_false]
-    rw [bind_ok huntil]
-    simp only [hparse, evalExpr]
-    cases uns with
-    | true =>
-      have := ho.2.2.2.2
-      simp only [if_true] at this
-      obtain ⟨n, hn⟩ := Option.isSome_iff_exists.1 this
-      have hlt := parseUint_lt hn
-      have hw : wrapTo bits true (n : Int) = n :=
-        wrapTo_of_inRange bits true n hbits (by rw [inRange_unsigned]; exact ⟨by omega, by exact_mod_cast hlt⟩)
-      simp [hn, hw, pure_apply]
-    | false =>
-      have := ho.2.2.2.2
-      simp only [Bool.false_eq_true, if_false] at this
-      obtain ⟨n, hn⟩ := Option.isSome_iff_exists.1 this
-      have hw : wrapTo bits false n = n := wrapTo_of_inRange bits false n hbits (parseInt_range hn)
-      simp [hn, hw, pure_apply]
+    rw [bind_ok h3]
+    simp only [List.length_map]
+    cases hp : parseExpr (val.length + 1) (val.map ETok.tok) with
+    | none => rw [hp] at hv; cases hv
+    | some e =>
+      rw [hp] at hv
+      simp only at hv ⊢
+      cases he : evalExpr bits uns prev e with
+      | none => rw [he] at hv; cases hv
+      | some v =>
+        rw [he] at hv
+        simp only [Option.some.injEq] at hv
+        simp only
+        cases uns with
+        | true => simp only [if_true] at hv ⊢; rw [← hv]; rfl
+        | false => simp only [Bool.false_eq_true, if_false] at hv ⊢; rw [← hv]; rfl
 
-/-- one member line (after its attribute line, if any): two iterations of the body loop -/
-theorem enum_opt_iter (fuel bits : Nat) (uns fl : Bool) (hbits : 0 < bits) (hfuel : 2 ≤ fuel) (f : Nat)
-    (acc : List EnumOption) (st : BodySt) (o : CEnumOpt)
-    (ho : CEnumOptOk bits uns o) (r : List Lexeme) (t : TR)
-    (h : Src (toks (⟨[9], tId o.name⟩ :: ⟨[32], tEq⟩ :: ⟨[32], tNum o.lit⟩ :: ⟨[], tSemi⟩ :: ⟨[], tNl⟩ :: r)) t)
+/-- one member line (after its doc and attribute lines, if any): two iterations of the body loop -/
+theorem enum_opt_iter (fuel bits : Nat) (uns fl : Bool) (f : Nat) (acc : List EnumOption) (st : BodySt) (o : CEnumOpt)
+    (ho : CEnumOptOk fl bits uns acc o) (hfuel : o.val.length < fuel) (r : List Lexeme) (t : TR)
+    (h : Src (toks (⟨[9], tId o.name⟩ :: spLex .ident (tEq :: o.val.map ETok.tok) (⟨[], tSemi⟩ :: ⟨[], tNl⟩ :: r))) t)
     (hcur : (t.nextTok.kind == TK.closeCurly) = false) :
     ∃ t', Lex (toks r) t' ∧ t'.nextTok.kind = .newline ∧
       readEnum.loop fuel fl bits uns (f + 2) acc st t =
         readEnum.loop fuel fl bits uns f
           (acc ++ [{ name := o.name, comment := joinLines st.comments, depMsg := st.depMsg,
-                     value := if uns then 0 else (parseInt o.lit true bits).getD 0,
-                     uvalue := if uns then (parseUint o.lit true bits).getD 0 else 0,
+                     value := ((enumVal fl bits uns acc (o.val.map ETok.tok)).getD (0, 0)).1,
+                     uvalue := ((enumVal fl bits uns acc (o.val.map ETok.tok)).getD (0, 0)).2,
                      deprecated := st.isDep }]) {} t' := by
+  obtain ⟨⟨sv, uv⟩, hv⟩ := Option.isSome_iff_exists.1 ho.2.2.2.2
+  have htoks : ∀ (ts : List Token) (prev : TK) (r' : List Lexeme), toks (spLex prev ts r') = ts ++ toks r' := by
+    intro ts
+    induction ts with
+    | nil => intro prev r'; rfl
+    | cons tk ts ih => intro prev r'; simp [spLex, ih]
   obtain ⟨t1, hn1, htok1, hl1⟩ := Src.step (tok := tId o.name) h
-  obtain ⟨t3, hval, hl3, htok3⟩ := enum_value fuel bits uns fl hbits hfuel acc o ho hl1.src
+  have hl1' : Lex (tEq :: (o.val.map ETok.tok ++ tSemi :: tNl :: toks r)) t1 := by
+    have := hl1
+    change Lex (toks (spLex .ident (tEq :: o.val.map ETok.tok) (⟨[], tSemi⟩ :: ⟨[], tNl⟩ :: r))) t1 at this
+    rw [htoks] at this
+    simpa using this
+  obtain ⟨t3, hval, hl3, htok3⟩ := enum_value fuel bits uns fl acc o.val sv uv hv hfuel hl1'.src
   obtain ⟨t4, hn4, htok4, hl4⟩ := Src.step (tok := tNl) hl3.src
   have hk1 : t1.nextTok.kind = .ident := by rw [htok1]
   have hk4 : t4.nextTok.kind = .newline := by rw [htok4]
   refine ⟨t4, hl4, hk4, ?_⟩
-  have hne : (TK.newline == TK.closeCurly) = false := by decide
   have hcur3 : (t3.nextTok.kind == TK.closeCurly) = false := by rw [htok3]; rfl
   rw [show f + 2 = (f + 1) + 1 from rfl, readEnum.loop]
-  simp only [bind_pTok, hcur, hne, Bool.false_eq_true, if_false]
+  simp only [bind_pTok, hcur, Bool.false_eq_true, if_false]
   rw [bind_pNext _ hn1]
   simp only [Bool.not_true, Bool.false_eq_true, if_false, bind_pTok, hk1]
   rw [bind_ok hval, readEnum.loop]
   simp only [bind_pTok, hcur3, Bool.false_eq_true, if_false]
   rw [bind_pNext _ hn4]
-  simp only [Bool.not_true, Bool.false_eq_true, if_false, bind_pTok, hk4, htok1]
+  simp only [Bool.not_true, Bool.false_eq_true, if_false, bind_pTok, hk4, htok1, hv, Option.getD_some]
 
 /-- `// doc` lines in an enum body: one iteration each -/
 theorem enum_doc_iter (fuel bits : Nat) (uns fl : Bool) : ∀ (cs : List Str) (f : Nat) (acc : List EnumOption)
@@ -913,13 +926,13 @@ theorem enum_doc_iter (fuel bits : Nat) (uns fl : Bool) : ∀ (cs : List Str) (f
     rw [he]
     simp only [List.append_assoc, List.singleton_append]
 
-theorem enumLoop_ok (fuel bits : Nat) (uns fl : Bool) (hbits : 0 < bits) (hfuel : 2 ≤ fuel) :
+theorem enumLoop_ok (fuel bits : Nat) (uns fl : Bool) :
     ∀ (os : List CEnumOpt) (f : Nat) (acc : List EnumOption)
-    (r : List Lexeme) (t : TR), (∀ o ∈ os, CEnumOptOk bits uns o) → enumOptsLen os ≤ f →
+    (r : List Lexeme) (t : TR), CEnumOptsOk fl bits uns acc os → enumOptsLen os ≤ f → enumOptsLen os ≤ fuel →
     Src (toks (enumOptsLex os r)) t → (t.nextTok.kind == TK.closeCurly) = false →
-    ∃ t', readEnum.loop fuel fl bits uns f acc {} t = .ok (acc ++ os.map (enumOptOf bits uns)) t' ∧
+    ∃ t', readEnum.loop fuel fl bits uns f acc {} t = .ok (enumOptsOf fl bits uns acc os) t' ∧
       Lex (toks (⟨[], tNl⟩ :: r)) t'
-  | [], f, acc, r, t, _, hf, h, hcur => by
+  | [], f, acc, r, t, _, hf, _, h, hcur => by
     obtain ⟨f, rfl⟩ : ∃ g, f = g + 2 := ⟨f - 2, by simp [enumOptsLen] at hf; omega⟩
     obtain ⟨t1, hn, htok, hl⟩ := Src.step (tok := tClose) (l := toks (⟨[], tNl⟩ :: r)) h
     refine ⟨t1, ?_, hl⟩
@@ -929,34 +942,33 @@ theorem enumLoop_ok (fuel bits : Nat) (uns fl : Bool) (hbits : 0 < bits) (hfuel 
     rw [bind_pNext _ hn]
     simp only [Bool.not_true, Bool.false_eq_true, if_false, bind_pTok, hk1]
     rw [readEnum.loop]
-    simp only [bind_pTok, hk1, beq_self_eq_true, if_true, List.map_nil, List.append_nil]
+    simp only [bind_pTok, hk1, beq_self_eq_true, if_true, enumOptsOf]
     rfl
-  | o :: os, f, acc, r, t, hok, hf, h, hcur => by
-    have ho := hok o (List.mem_cons_self)
+  | o :: os, f, acc, r, t, hok, hf, hfu, h, hcur => by
+    have ho := hok.1
+    have hvl : o.val.length < fuel := by simp only [enumOptsLen, enumOptLen] at hfu; omega
     simp only [enumOptsLex, enumOptLex] at h
     obtain ⟨f, rfl⟩ : ∃ k, f = k + o.doc.length := ⟨f - o.doc.length, by simp only [enumOptsLen, enumOptLen] at hf; omega⟩
     obtain ⟨t0, hsrc0, hcur0, he0⟩ := enum_doc_iter fuel bits uns fl o.doc f acc {} _ t ho.1 h hcur
     rw [he0]
-    have hst0 : ({ ({} : BodySt) with comments := ({} : BodySt).comments ++ o.doc } : BodySt) = { comments := o.doc } := by
-      simp
-    rw [hst0]
+    simp only [List.nil_append]
     cases hd : o.dep with
     | none =>
       rw [hd] at hsrc0
       simp only [depLex] at hsrc0
       obtain ⟨f, rfl⟩ : ∃ k, f = k + 2 := ⟨f - 2, by simp only [enumOptsLen, enumOptLen] at hf; omega⟩
-      obtain ⟨t1, hl1, hk1, he1⟩ := enum_opt_iter fuel bits uns fl hbits hfuel f acc { comments := o.doc } o ho _ t0 hsrc0 hcur0
-      obtain ⟨t', h2, hl2⟩ := enumLoop_ok fuel bits uns fl hbits hfuel os f (acc ++ [enumOptOf bits uns o]) r t1
-        (fun x hx => hok x (List.mem_cons_of_mem _ hx)) (by simp only [enumOptsLen, enumOptLen] at hf; omega) hl1.src
+      obtain ⟨t1, hl1, hk1, he1⟩ := enum_opt_iter fuel bits uns fl f acc { comments := o.doc } o ho hvl _ t0 hsrc0 hcur0
+      obtain ⟨t', h2, hl2⟩ := enumLoop_ok fuel bits uns fl os f (acc ++ [enumOptOf fl bits uns acc o]) r t1
+        hok.2 (by simp only [enumOptsLen, enumOptLen] at hf; omega) (by simp only [enumOptsLen] at hfu; omega) hl1.src
         (not_close_of_nl hk1)
       refine ⟨t', ?_, hl2⟩
       rw [he1]
-      simp only [List.map_cons, List.append_assoc, List.singleton_append] at h2 ⊢
-      have hfd : enumOptOf bits uns o =
+      have hfd : enumOptOf fl bits uns acc o =
           { name := o.name, comment := joinLines o.doc, depMsg := [],
-            value := if uns then 0 else (parseInt o.lit true bits).getD 0,
-            uvalue := if uns then (parseUint o.lit true bits).getD 0 else 0, deprecated := false } := by
+            value := ((enumVal fl bits uns acc (o.val.map ETok.tok)).getD (0, 0)).1,
+            uvalue := ((enumVal fl bits uns acc (o.val.map ETok.tok)).getD (0, 0)).2, deprecated := false } := by
         simp [enumOptOf, docOf, hd, depMsgOf]
+      simp only [enumOptsOf]
       rw [← hfd]
       exact h2
     | some m =>
@@ -966,10 +978,10 @@ theorem enumLoop_ok (fuel bits : Nat) (uns fl : Bool) (hbits : 0 < bits) (hfuel 
       obtain ⟨ta, hn0, htok0, hl0⟩ := Src.step (tok := tLB) hsrc0
       obtain ⟨t1, hd1, hl1, htok1⟩ := readDeprecated_ok (ho.2.1 m hd) hl0.src
       have hcur1 : (t1.nextTok.kind == TK.closeCurly) = false := by rw [htok1]; rfl
-      obtain ⟨t2, hl2, hk2, he2⟩ := enum_opt_iter fuel bits uns fl hbits hfuel f acc
-        { comments := o.doc, isDep := true, depMsg := m } o ho _ t1 hl1.src hcur1
-      obtain ⟨t', h3, hl3⟩ := enumLoop_ok fuel bits uns fl hbits hfuel os f (acc ++ [enumOptOf bits uns o]) r t2
-        (fun x hx => hok x (List.mem_cons_of_mem _ hx)) (by simp only [enumOptsLen, enumOptLen] at hf; omega) hl2.src
+      obtain ⟨t2, hl2, hk2, he2⟩ := enum_opt_iter fuel bits uns fl f acc
+        { comments := o.doc, isDep := true, depMsg := m } o ho hvl _ t1 hl1.src hcur1
+      obtain ⟨t', h3, hl3⟩ := enumLoop_ok fuel bits uns fl os f (acc ++ [enumOptOf fl bits uns acc o]) r t2
+        hok.2 (by simp only [enumOptsLen, enumOptLen] at hf; omega) (by simp only [enumOptsLen] at hfu; omega) hl2.src
         (not_close_of_nl hk2)
       refine ⟨t', ?_, hl3⟩
       have hk0 : ta.nextTok.kind = .openSquare := by rw [htok0]
@@ -981,12 +993,12 @@ theorem enumLoop_ok (fuel bits : Nat) (uns fl : Bool) (hbits : 0 < bits) (hfuel 
       have hst : ({ ({ comments := o.doc } : BodySt) with isDep := true, depMsg := m } : BodySt) =
           { comments := o.doc, isDep := true, depMsg := m } := rfl
       rw [hst, he2]
-      simp only [List.map_cons, List.append_assoc, List.singleton_append] at h3 ⊢
-      have hfd : enumOptOf bits uns o =
+      have hfd : enumOptOf fl bits uns acc o =
           { name := o.name, comment := joinLines o.doc, depMsg := m,
-            value := if uns then 0 else (parseInt o.lit true bits).getD 0,
-            uvalue := if uns then (parseUint o.lit true bits).getD 0 else 0, deprecated := true } := by
+            value := ((enumVal fl bits uns acc (o.val.map ETok.tok)).getD (0, 0)).1,
+            uvalue := ((enumVal fl bits uns acc (o.val.map ETok.tok)).getD (0, 0)).2, deprecated := true } := by
         simp [enumOptOf, docOf, hd, depMsgOf]
+      simp only [enumOptsOf]
       rw [← hfd]
       exact h3
 
@@ -1010,15 +1022,14 @@ theorem enumBase_facts (base : Option Str)
 /-- readEnum (the `enum` keyword has been read), for an enum that is not a `[flags]` enum -/
 theorem readEnum_ok (fuel : Nat) (fl : Bool) (name : Str) (base : Option Str) (os : List CEnumOpt)
     (hb : ∀ b, base = some b → IdentOk b = true ∧ (isUintName b || isIntName b) = true ∧ (decodeInteger b).isSome = true)
-    (hok : ∀ o ∈ os, CEnumOptOk (enumBits base).1 (enumBits base).2 o) (hfu : enumOptsLen os ≤ fuel)
+    (hok : CEnumOptsOk fl (enumBits base).1 (enumBits base).2 [] os) (hfu : enumOptsLen os ≤ fuel)
     (r : List Lexeme) (t : TR)
     (h : Src (toks (⟨[32], tId name⟩ :: baseLex base (⟨[32], tOpen⟩ :: ⟨[], tNl⟩ :: enumOptsLex os r))) t) :
     ∃ t', readEnum fuel fl t =
-        .ok { name := name, options := os.map (enumOptOf (enumBits base).1 (enumBits base).2),
+        .ok { name := name, options := enumOptsOf fl (enumBits base).1 (enumBits base).2 [] os,
               simpleType := enumBase base, unsigned := (enumBits base).2 } t' ∧
       Lex (toks (⟨[], tNl⟩ :: r)) t' := by
-  obtain ⟨hname, hdec, hbits⟩ := enumBase_facts base hb
-  have hfuel : 2 ≤ fuel := by have := enumOptsLen_ge os; omega
+  obtain ⟨hname, hdec, _⟩ := enumBase_facts base hb
   obtain ⟨t1, h1, hsrc1⟩ := expectSeq_ok [tId name] _ t h
   simp only [List.map_cons, List.map_nil] at h1
   -- the header up to and including `{`
@@ -1058,7 +1069,7 @@ theorem readEnum_ok (fuel : Nat) (fl : Bool) (name : Str) (base : Option Str) (o
       simp only [List.headD_cons, hname', Bool.false_eq_true, if_false, bind_pure, enumBase]
   obtain ⟨t2, hsrc2, hhd⟩ := hhead
   obtain ⟨t3, h3, hl3, htok3⟩ := optNewline_ok (tok := tNl) rfl hsrc2
-  obtain ⟨t', h4, hl4⟩ := enumLoop_ok fuel (enumBits base).1 (enumBits base).2 fl hbits hfuel os fuel [] r t3 hok hfu hl3.src
+  obtain ⟨t', h4, hl4⟩ := enumLoop_ok fuel (enumBits base).1 (enumBits base).2 fl os fuel [] r t3 hok hfu hfu hl3.src
     (by rw [htok3]; rfl)
   refine ⟨t', ?_, hl4⟩
   simp only [readEnum]
@@ -1090,7 +1101,7 @@ theorem top_flags (fuel f : Nat) (F : File) (cs : List Str) {r : List Lexeme} {t
 /-- an enum and the line break after `}`: two iterations -/
 theorem top_enum (fuel f : Nat) (F : File) (cs : List Str) (fl : Bool) (name : Str) (base : Option Str) (os : List CEnumOpt)
     (hb : ∀ b, base = some b → IdentOk b = true ∧ (isUintName b || isIntName b) = true ∧ (decodeInteger b).isSome = true)
-    (hok : ∀ o ∈ os, CEnumOptOk (enumBits base).1 (enumBits base).2 o) (hfu : enumOptsLen os ≤ fuel)
+    (hok : CEnumOptsOk fl (enumBits base).1 (enumBits base).2 [] os) (hfu : enumOptsLen os ≤ fuel)
     {r : List Lexeme} {t : TR}
     (h : Src (toks (⟨[], ⟨.kEnum, kwEnum⟩⟩ :: ⟨[32], tId name⟩ ::
       baseLex base (⟨[32], tOpen⟩ :: ⟨[], tNl⟩ :: enumOptsLex os r))) t) :
@@ -1322,10 +1333,7 @@ theorem membersLoop_ok (fuel : Nat) : ∀ (ms : List CUMember) (f : Nat) (acc : 
     obtain ⟨f, rfl⟩ : ∃ k, f = k + m.doc.length := ⟨f - m.doc.length, by simp only [membersLen] at hf; omega⟩
     obtain ⟨t0, hsrc0, hcur0, he0⟩ := union_doc_iter fuel m.doc f acc {} _ t hdocOk h hcur
     rw [he0]
-    have hst0 : ({ ({} : BodySt) with comments := ({} : BodySt).comments ++ m.doc,
-        tags := ({} : BodySt).tags ++ tagsOf m.doc } : BodySt) = { comments := m.doc, tags := tagsOf m.doc } := by
-      simp
-    rw [hst0]
+    simp only [List.nil_append]
     cases hd : m.dep with
     | none =>
       rw [hd] at hsrc0
@@ -1487,6 +1495,28 @@ theorem const_value {v : CConstV} (hv : CConstVOk v) (k : Str → P Const) (t : 
     have e3 : strEq kwString "guid" = false := by decide
     have e4 : strEq kwString "string" = true := by decide
     simp [constTy, constValTok, constVal, e1, e2, e3, e4, goStringLitOk_str hv, bind_pure]
+  | float ty neg ip fp =>
+    simp only [constTy, constValTok, constVal, hv.2.1, hv.2.2.1, Bool.false_eq_true, if_false, if_true, bind_pure]
+  | inf ty =>
+    simp only [constTy, constValTok, constVal, hv.2.1, hv.2.2, Bool.false_eq_true, if_false, if_true, bind_pure]
+  | negInf ty =>
+    simp only [constTy, constValTok, constVal, hv.2.1, hv.2.2, Bool.false_eq_true, if_false, if_true, bind_pure]
+  | nan ty =>
+    simp only [constTy, constValTok, constVal, hv.2.1, hv.2.2, Bool.false_eq_true, if_false, if_true, bind_pure]
+  | guid body =>
+    have e1 : (isUintName kwGuid || isIntName kwGuid) = false := by decide
+    have e2 : isFloatName kwGuid = false := by decide
+    have e3 : strEq kwGuid "guid" = true := by decide
+    simp [constTy, constValTok, constVal, e1, e2, e3, trimQuotes_str hv.1, hv.2, bind_pure]
+
+theorem float_not_string {ty : Str} (h : isFloatName ty = true) : strEq ty "string" = false := by
+  cases hs : strEq ty "string" with
+  | false => rfl
+  | true =>
+    have hty : ty = strOf "string" := by simpa [strEq] using hs
+    rw [hty] at h
+    revert h
+    decide
 
 /-- how `readConst` ends: it swallows the line break after the `;`, or — at the very end of the input —
     leaves the tokenizer with the last token held back -/
@@ -1678,6 +1708,21 @@ theorem def_step (fuel f : Nat) (F : File) (cs : List Str) (d : CDef) (ds : CFil
       | bool b =>
         have hne : strEq kwBool "string" = false := by decide
         simp only [constTy, hne, Bool.and_false, Bool.false_eq_true, if_false, bind_bind_pure, bind_pure, addDefC]
+      | guid body =>
+        have hne : strEq kwGuid "string" = false := by decide
+        simp only [constTy, hne, Bool.and_false, Bool.false_eq_true, if_false, bind_bind_pure, bind_pure, addDefC]
+      | float ty neg ip fp =>
+        have hne : strEq ty "string" = false := float_not_string h2.2.2.1
+        simp only [constTy, hne, Bool.and_false, Bool.false_eq_true, if_false, bind_bind_pure, bind_pure, addDefC]
+      | inf ty =>
+        have hne : strEq ty "string" = false := float_not_string h2.2.2
+        simp only [constTy, hne, Bool.and_false, Bool.false_eq_true, if_false, bind_bind_pure, bind_pure, addDefC]
+      | negInf ty =>
+        have hne : strEq ty "string" = false := float_not_string h2.2.2
+        simp only [constTy, hne, Bool.and_false, Bool.false_eq_true, if_false, bind_bind_pure, bind_pure, addDefC]
+      | nan ty =>
+        have hne : strEq ty "string" = false := float_not_string h2.2.2
+        simp only [constTy, hne, Bool.and_false, Bool.false_eq_true, if_false, bind_bind_pure, bind_pure, addDefC]
       | str body =>
         have hst : strEq kwString "string" = true := by decide
         cases hgp : strEq name "go_package" with
@@ -1773,7 +1818,7 @@ theorem defLen_mem : ∀ {ds : CFile} {d : CTop} (nl : Bool), d ∈ ds → defLe
     · have := defLen_mem (nlAfter x.d) h; omega
 
 /-- ReadFile returns exactly the denoted `File` on every admissible layout of a well-formed schema. -/
-theorem readFile_schema (f : CFile) (hf : CFileOk f) (w : Nat → List Byte) (hw : LayoutOk w (fileLex false f)) :
+theorem readFile_schema (f : CFile) (hf : CFileOkP f) (w : Nat → List Byte) (hw : LayoutOk w (fileLex false f)) :
     readFile (laidOutF w f) false = .ok (denote f) := by
   have hlex := lex_schema f hf w hw (mkTR (laidOutF w f) false) (mkTR_ok _) rfl
   have hlen : (fileLex false f).length ≤ (laidOutF w f).length :=
